@@ -64,7 +64,7 @@ Proof. exact missing_not_found_pf. Qed.
 Theorem wrongtype_or_veto_fails : forall c m o m' r cbs,
   s_checks c = true ->
   match o with
-  | OCreate _ _ e | OUpdate _ _ e => e_wrongtype e || e_veto e
+  | OCreate _ _ e | OUpdate _ _ e => e_wrongtype e || e_veto e || e_unenc e
   | ODelete _ e => e_veto e
   | _ => false
   end = true ->
@@ -116,16 +116,17 @@ Proof. exact run_bc_refines_badger_pf. Qed.
 Theorem bc_mock_none : forall newid nl m o, spec_bc (cfg_mock newid) nl m o = [].
 Proof. exact spec_bc_mock_pf. Qed.
 
-(* an operation calls the listeners exactly when it ends in success or in a veto (whatever
+(* an operation calls the listeners exactly when it ends in success, in a veto or in the
+   encoder's error (the value is encoded after the listeners ran) (whatever
    the value written, equal to the stored one or not); then the outcome is the veto error
    iff some listener vetoes, and the calls are listeners 1, 2, ... in registration order,
    each once with (id, current value, new value), up to and including the first veto *)
 Theorem bc_listener_stage : forall c nl m o m' r cbs,
   s_checks c = true -> spec_step c m o = (m', r, cbs) ->
   (is_mutation o = true /\
-   r = (if Nat.eqb (vetoat_of o) 0 then ROk else EVeto) /\
+   r = (if negb (Nat.eqb (vetoat_of o) 0) then EVeto else if unenc_of o then EEncode else ROk) /\
    spec_bc c nl m o = bc_calls nl (vetoat_of o) (touch c o) (m !! touch c o) (after_of o)) \/
-  (r <> ROk /\ r <> EVeto /\ spec_bc c nl m o = []).
+  (r <> ROk /\ r <> EVeto /\ r <> EEncode /\ spec_bc c nl m o = []).
 Proof. exact spec_bc_stage_pf. Qed.
 
 Theorem bc_calls_shape : forall nl k i b a,
@@ -193,7 +194,8 @@ Proof. vm_compute. reflexivity. Qed.
 
 (* ---- non-vacuity ---- *)
 Definition va := s2b "{""n"":1}". Definition vb := s2b "{""n"":2}".
-Definition veto_env := Env false 1%nat []. Definition wrong_env := Env true 0%nat [].
+Definition veto_env := Env false 1%nat [] false. Definition wrong_env := Env true 0%nat [] false.
+Definition unenc_env := Env false 0%nat [] true.
 Definition demo_ops : list op :=
   [OCreate (s2b "a") va env0; OCreate (s2b "a") vb env0; OUpdate (s2b "a") vb veto_env;
    OUpdate (s2b "a") vb env0; OValue (s2b "a"); OCreate [] va env0; OUpdate (s2b "b") va wrong_env;
@@ -207,8 +209,8 @@ Example badger_demo :
 Proof. vm_compute. reflexivity. Qed.
 
 Example mock_newid_demo :
-  run (mstep true) [] [OCreate [] va (Env false 0%nat (s2b "g1")); OValue (s2b "g1"); OValue [];
-                        OCreate [] vb (Env false 0%nat (s2b "g1")); OCreate [] vb env0] =
+  run (mstep true) [] [OCreate [] va (Env false 0%nat (s2b "g1") false); OValue (s2b "g1"); OValue [];
+                        OCreate [] vb (Env false 0%nat (s2b "g1") false); OCreate [] vb env0] =
   ([(s2b "g1", va)], [(ROk, [(s2b "g1", None, Some va)]); (RVal va, []); (ENotFound, []); (EDuplicate, []); (RPanic, [])]).
 Proof. vm_compute. reflexivity. Qed.
 
@@ -216,13 +218,27 @@ Proof. vm_compute. reflexivity. Qed.
    listener 1 accepts and listener 2 vetoes, both see (id, stored value, same value) *)
 Example same_value_update_vetoed :
   let st := [(s2b "a", va)] in
-  bstep [] st (OUpdate (s2b "a") va (Env false 2%nat [])) = (st, EVeto, []) /\
-  bstep_bc [] 2 st (OUpdate (s2b "a") va (Env false 2%nat [])) =
+  bstep [] st (OUpdate (s2b "a") va (Env false 2%nat [] false)) = (st, EVeto, []) /\
+  bstep_bc [] 2 st (OUpdate (s2b "a") va (Env false 2%nat [] false)) =
     [(1%nat, s2b "a", Some va, Some va); (2%nat, s2b "a", Some va, Some va)] /\
   bstep_bc [] 2 st (OUpdate (s2b "a") va env0) =
     [(1%nat, s2b "a", Some va, Some va); (2%nat, s2b "a", Some va, Some va)] /\
-  bstep_bc [] 2 st (OUpdate (s2b "a") va (Env false 1%nat [])) = [(1%nat, s2b "a", Some va, Some va)] /\
+  bstep_bc [] 2 st (OUpdate (s2b "a") va (Env false 1%nat [] false)) = [(1%nat, s2b "a", Some va, Some va)] /\
   bstep_bc [] 2 st (OCreate (s2b "a") va env0) = [].
+Proof. vm_compute. repeat split. Qed.
+
+(* a value of the right type that cannot be encoded (NaN, func, failing MarshalJSON ...): badgerstore
+   fails with the encoder's error after calling the listeners, nothing is written, no OnChange,
+   and the id stays fully usable; mockstore, which never encodes, stores it *)
+Example unencodable_value :
+  let st := [(s2b "a", va)] in
+  run (bstep []) st [OUpdate (s2b "a") vb unenc_env; OValue (s2b "a"); OExists (s2b "a");
+                     OCreate (s2b "b") vb unenc_env; OExists (s2b "b"); OUpdate (s2b "a") vb env0; ODelete (s2b "a") env0] =
+    ([], [(EEncode, []); (RVal va, []); (RBool true, []); (EEncode, []); (RBool false, []);
+          (ROk, [(s2b "a", Some va, Some vb)]); (ROk, [(s2b "a", Some vb, None)])]) /\
+  bstep_bc [] 1 st (OUpdate (s2b "a") vb unenc_env) = [(1%nat, s2b "a", Some va, Some vb)] /\
+  bstep [] st (OUpdate (s2b "a") vb (Env false 1%nat [] true)) = (st, EVeto, []) /\
+  mstep false st (OUpdate (s2b "a") vb unenc_env) = ([(s2b "a", vb)], ROk, [(s2b "a", Some va, Some vb)]).
 Proof. vm_compute. repeat split. Qed.
 
 (* two write transactions on one id cannot be open together; on two ids (keylock) they can,
